@@ -1,7 +1,7 @@
 (* C19 — Production weights are normalised per non-terminal, stable and respected.
    Only statements, each closed by [exact] of a lemma proved in Proofs/WeightProofs.v,
    Proofs/RegProofs.v or Proofs/TapeProofs.v; Print Assumptions; non-vacuity examples. *)
-From GE Require Import Base Tape Grammar WellTyped Synth RegProofs WeightProofs TapeProofs WeightChoice.
+From GE Require Import Base Tape Grammar WellTyped Synth RegProofs WeightProofs TapeProofs DistProofs WeightChoice.
 Open Scope Q_scope.
 
 (* after extract_grammar on classes of which some registered or considered one carries a weight:
@@ -74,15 +74,16 @@ Proof. exact @choice_weighted_pick_positive. Qed.
 Print Assumptions C19_chosen_weight_positive.
 
 (* ProgressivelyTerminalDecider (after the repair of F42): whatever the grammar, context and source state, the
-   production it returns does not have declared weight zero whenever the production weights and the target depth are
+   production it returns does not have declared weight zero on every analysed grammar (default depth mode) whenever the production weights are
    non-negative (the heuristic weight is clamped at 0: repair of F44) and the integer total of the weights it hands to
    choice_weighted is positive; and when its depth heuristic is zero for every alternative, the weights
    it hands over are exactly the production weights (before the repair the first alternative was returned) *)
-Theorem C19_progressive_decider_respects_weights : forall g key alts ctx st x st',
+Theorem C19_progressive_decider_respects_weights : forall d order g key alts ctx st x st',
+  d_xdepth d = false -> perm_order order -> analyse d order = Ok g ->
   choose g DProg key alts ctx st = (Ok x, st') -> (0 <= c_depth ctx)%Z -> (forall y, (0 <= prod_weight g y)%Q) ->
   exists target ws, prog_final_weights g target ctx alts = Ok ws /\
-    ((0 <= target)%Z -> forall total, last_error (acc_weights ws) = Some total -> (0 < total)%Z -> ~ (prod_weight g x == 0)%Q).
-Proof. exact prog_zero_weight_never'. Qed.
+    (forall total, last_error (acc_weights ws) = Some total -> (0 < total)%Z -> ~ (prod_weight g x == 0)%Q).
+Proof. exact prog_respects_weights_analysed. Qed.
 Print Assumptions C19_progressive_decider_respects_weights.
 
 Theorem C19_zero_heuristic_falls_back_to_production_weights : forall g target ctx alts ws0,
